@@ -3,6 +3,7 @@ import typing
 from fractions import Fraction
 
 from ..core import Op, jkey
+from ..leanio import InfraError
 from ..rat import rat, frac, round_once_eq
 from .. import symtrace as st
 from .. import symx
@@ -237,15 +238,28 @@ def _to_model_lib(inp):
     return {"g": inp["g"], "pos": inp["pos"], "lib": _LIB_CACHE.get(jkey(inp))}
 
 
+def _safe(fn):
+    """a monitor that cannot be evaluated (the code changed shape, an adapter raised) reports that as
+    the failure of the property at this input instead of crashing the check"""
+    def wrapped(ctx, inp, io):
+        try:
+            return fn(ctx, inp, io)
+        except InfraError:
+            raise
+        except Exception as e:  # noqa: BLE001
+            return f"property monitor could not be evaluated on the implementation's output: {e!r}"
+    return wrapped
+
+
 OPS = {
-    "bounds": Op("bounds", _impl_bounds, holds=_holds_bounds),
-    "features": Op("features", _impl_features, holds=_holds_features),
-    "point": Op("point", _impl_point, holds=_holds_point),
+    "bounds": Op("bounds", _impl_bounds, holds=_safe(_holds_bounds)),
+    "features": Op("features", _impl_features, holds=_safe(_holds_features)),
+    "point": Op("point", _impl_point, holds=_safe(_holds_point)),
     "shape": Op("shape", _impl_shape, compare=_cmp_shape),
     "features_free": Op("features_free", _impl_features, compare=_cmp_features_free, mode="round-once",
                         model_op="features"),
     "point_free": Op("point_free", _impl_point, compare=_cmp_point_free, mode="round-once", model_op="point"),
-    "lib_point": Op("lib_point", _impl_lib_point, to_model=_to_model_lib, holds=_holds_lib_point,
+    "lib_point": Op("lib_point", _impl_lib_point, to_model=_to_model_lib, holds=_safe(_holds_lib_point),
                     mode="tolerance", model_op="point"),
 }
 
@@ -267,34 +281,49 @@ FINDING_MATCHERS = {"rounding_excursion": _rounding_excursion}
 
 # ---------------------------------------------------------------- tie 1: tables
 def _lean_strs(xs):
-    return "[" + ", ".join('"' + x.replace("\\", "\\\\").replace('"', '\\"') + '"' for x in xs) + "]"
+    return "[" + ", ".join('"' + str(x).replace("\\", "\\\\").replace('"', '\\"') + '"' for x in xs) + "]"
+
+
+def _positions(ops):
+    lit = getattr(ops, "Positions", None)
+    return [p for p in typing.get_args(lit) if isinstance(p, str)] if lit is not None else None
 
 
 def _table_obligations(ctx):
     import soundevent.geometry.operations as ops
     import soundevent.geometry.features as F
     from soundevent import data
-    positions = list(typing.get_args(ops.Positions))
-    ctx.obligation("positions_literal",
-                   f"example : ({_lean_strs(positions)} : List String) = SE.Bnd.positionNames := by decide\n"
-                   f"example : ({_lean_strs(positions)} : List String).length = 11 := by decide\n",
-                   {"op": "point"})
-    # Python's own `split("-")` on the names agrees with the model's splitDash
-    split_tbl = ", ".join(f"({_lean_strs([p])[1:-1]}, {_lean_strs(p.split('-'))})" for p in positions)
-    ctx.obligation("positions_split",
-                   f"example : ([{split_tbl}] : List (String × List String)).all "
-                   f"(fun p => SE.Bnd.splitDash p.1 == p.2) = true := by decide\n", {"op": "point"})
-    keys = list(F._COMPUTE_FEATURES.keys())
-    ctx.obligation("feature_table_keys",
-                   f"def keys : List String := {_lean_strs(keys)}\n"
-                   "theorem keys_cover : ∀ k ∈ SE.Bnd.featureTypes, k ∈ keys := by decide\n"
-                   "theorem keys_only : ∀ k ∈ keys, k ∈ SE.Bnd.featureTypes := by decide\n"
-                   "theorem keys_nodup : keys.length = 9 := by decide\n"
-                   "theorem table_total (g : SE.Geom) : g.tag ∈ keys :=\n"
-                   "  SE.Proofs.C05.C05_feature_table_total keys keys_cover g\n", {"op": "features"})
-    mf = Fraction(data.MAX_FREQUENCY)
-    ctx.obligation("max_frequency",
-                   f"example : SE.MAXF = {st.lit(mf)} := by decide +kernel\n", {"op": "bounds"})
+    positions = _positions(ops)
+    if not positions:
+        ctx.fail("obligation", "positions_literal", detail="`Positions` literal not found in operations.py",
+                 extra={"op": "point"})
+    else:
+        ctx.obligation("positions_literal",
+                       f"example : ({_lean_strs(positions)} : List String) = SE.Bnd.positionNames := by decide\n",
+                       {"op": "point"})
+        # Python's own `split("-")` on the names agrees with the model's splitDash
+        split_tbl = ", ".join(f"({_lean_strs([p])[1:-1]}, {_lean_strs(p.split('-'))})" for p in positions)
+        ctx.obligation("positions_split",
+                       f"example : ([{split_tbl}] : List (String × List String)).all "
+                       f"(fun p => SE.Bnd.splitDash p.1 == p.2) = true := by decide\n", {"op": "point"})
+    table = getattr(F, "_COMPUTE_FEATURES", None)
+    if not isinstance(table, dict):
+        ctx.fail("obligation", "feature_table_keys", detail="`_COMPUTE_FEATURES` table not found in features.py",
+                 extra={"op": "features"})
+    else:
+        keys = [str(k) for k in table.keys()]
+        ctx.obligation("feature_table_keys",
+                       f"def keys : List String := {_lean_strs(keys)}\n"
+                       "theorem keys_cover : ∀ k ∈ SE.Bnd.featureTypes, k ∈ keys := by decide\n"
+                       "theorem keys_only : ∀ k ∈ keys, k ∈ SE.Bnd.featureTypes := by decide\n"
+                       "theorem table_total (g : SE.Geom) : g.tag ∈ keys :=\n"
+                       "  SE.Proofs.C05.C05_feature_table_total keys keys_cover g\n", {"op": "features"})
+    mf = getattr(data, "MAX_FREQUENCY", None)
+    if not isinstance(mf, (int, float)) or isinstance(mf, bool):
+        ctx.fail("obligation", "max_frequency", detail="`MAX_FREQUENCY` not found", extra={"op": "bounds"})
+    else:
+        ctx.obligation("max_frequency",
+                       f"example : SE.MAXF = {st.lit(Fraction(mf))} := by decide +kernel\n", {"op": "bounds"})
 
 
 # ---------------------------------------------------------------- tie 1b: symbolic traces
@@ -304,73 +333,86 @@ def _feature_leaf(v):
     return f"some [{items}]"
 
 
+class _StubGeometry:
+    """a geometry stand-in for tracing: carries a type tag, symbolic coordinates and the symbolic
+    bounds the stubbed compute_bounds / geometry_to_shapely hand out"""
+
+    def __init__(self, type, coordinates, bounds):
+        self.type = type
+        self.coordinates = coordinates
+        self._bounds = bounds
+
+    @classmethod
+    def geom_type(cls):
+        return None
+
+
+class _StubShape:
+    """what the stubbed geometry_to_shapely returns: symbolic `bounds`, three parts"""
+
+    def __init__(self, bounds):
+        self.bounds = bounds
+        self.geoms = [None, None, None]
+        self.geom_type = "Stub"
+
+
+_FEAT_SIMP = ("simp [SE.Bnd.features, SE.Bnd.shapeFeatures, SE.Bnd.boundsFeatures, SE.Bnd.fDuration, SE.Bnd.fLow, "
+              "SE.Bnd.fHigh, SE.Bnd.fBandwidth, SE.Bnd.fSegments]")
+
+
 def _symbolic_ties(ctx):
     import soundevent.geometry.operations as ops
     import soundevent.geometry.features as F
     BV = ["st", "lo", "en", "hi"]
     b = tuple(Sym.var(n) for n in BV)
-    G = object()
     # --- get_geometry_point with compute_bounds stubbed: every name of the literal and unknown ones
+    G = _StubGeometry("BoundingBox", b, b)
     orig = ops.compute_bounds
-    ops.compute_bounds = lambda g: b
+    ops.compute_bounds = lambda g: g._bounds
     try:
-        positions = [p for p in typing.get_args(ops.Positions) if p not in LIB_POS]
+        positions = [p for p in (_positions(ops) or BOUNDS_POS) if p not in LIB_POS]
         for pos in positions + UNKNOWN_POS[:6]:
             name = "ext_point_" + "".join(c if c.isalnum() else "_" for c in pos) + ("" if pos in positions else "_unknown")
-            src, tree, n = st.extract(name, lambda pos=pos: tuple(ops.get_geometry_point(G, pos)), BV, "Rat × Rat",
-                                      catch=(ValueError, KeyError))
-            ctx.symbolic_ties[name] = {"paths": n}
-            ctx.obligation(name, symx.tie(
-                name, src, BV, f'(SE.Bnd.pointAt (fun _ => (0, 0)) {_lean_strs([pos])[1:-1]} ⟨st, lo, en, hi⟩).toOption',
-                tactic=f"unfold {name}\n  first | rfl | decide | (simp [SE.Bnd.pointAt, SE.Bnd.positionNames]; done)"),
-                {"op": "point"})
+            ctx.sym_tie(name, lambda pos=pos: tuple(ops.get_geometry_point(G, pos)), BV, "Rat × Rat",
+                        f'(SE.Bnd.pointAt (fun _ => (0, 0)) {_lean_strs([pos])[1:-1]} ⟨st, lo, en, hi⟩).toOption',
+                        tactic=f"unfold {name}\n  first | rfl | decide | (simp [SE.Bnd.pointAt, SE.Bnd.positionNames]; done)",
+                        meta={"op": "point"}, catch=(ValueError, KeyError))
     finally:
         ops.compute_bounds = orig
     # --- every entry of _COMPUTE_FEATURES, through the table (a wrong row is a wrong function)
-    class _Shape:
-        bounds = b
-        geoms = [None, None, None]
-
-    class _Geo:
-        def __init__(self, coordinates=None, type=None):
-            self.coordinates = coordinates
-            self.type = type
     t, s, e, lo_, hi_ = Sym.var("t"), Sym.var("s"), Sym.var("e"), Sym.var("l"), Sym.var("h")
     closed = {
-        "TimeStamp": (["t"], _Geo(t), "SE.Bnd.features (.timeStamp t)"),
-        "TimeInterval": (["s", "e"], _Geo((s, e)), "SE.Bnd.features (.timeInterval s e)"),
-        "BoundingBox": (["s", "l", "e", "h"], _Geo((s, lo_, e, hi_)), "SE.Bnd.features (.boundingBox s l e h)"),
+        "TimeStamp": (["t"], t, "SE.Bnd.features (.timeStamp t)"),
+        "TimeInterval": (["s", "e"], (s, e), "SE.Bnd.features (.timeInterval s e)"),
+        "BoundingBox": (["s", "l", "e", "h"], (s, lo_, e, hi_), "SE.Bnd.features (.boundingBox s l e h)"),
     }
-    orig_feat, orig_conv = F.Feature, F.geometry_to_shapely
+    table = getattr(F, "_COMPUTE_FEATURES", None)
+    if not isinstance(table, dict):
+        ctx.fail("obligation", "ext_features", detail="`_COMPUTE_FEATURES` table not found", extra={"op": "features"})
+        return
+    orig_feat, orig_conv = getattr(F, "Feature", None), getattr(F, "geometry_to_shapely", None)
     F.Feature = lambda term, value: (term, value)
-    F.geometry_to_shapely = lambda g: _Shape()
+    F.geometry_to_shapely = lambda g: _StubShape(g._bounds)
     try:
-        for key, fn in F._COMPUTE_FEATURES.items():
+        for key in gen_geom.TYPES:
             name = "ext_features_" + key
             if key in closed:
-                V, geo, mterm = closed[key]
+                V, coords, mterm = closed[key]
             else:
-                V, geo = BV, _Geo(None, key)
+                # coordinates deliberately unusable: these functions must read the converted shape only
+                V, coords = BV, None
                 mterm = f'some (SE.Bnd.shapeFeatures "{key}" ⟨st, lo, en, hi⟩ 3)'
-            src, tree, n = symx.extract(name, lambda fn=fn, geo=geo: fn(geo), V, "Option (List (String × Rat))",
-                                        _feature_leaf, catch=(ValueError, KeyError, NotImplementedError))
-            ctx.symbolic_ties[name] = {"paths": n}
-            ctx.obligation(name, symx.tie(
-                name, src, V, mterm,
-                tactic=f"unfold {name}\n  first | rfl | (simp [SE.Bnd.features, SE.Bnd.shapeFeatures, SE.Bnd.boundsFeatures, "
-                       "SE.Bnd.fDuration, SE.Bnd.fLow, SE.Bnd.fHigh, SE.Bnd.fBandwidth, SE.Bnd.fSegments]; done) | "
-                       "(simp [SE.Bnd.features, SE.Bnd.shapeFeatures, SE.Bnd.boundsFeatures, SE.Bnd.fDuration, "
-                       "SE.Bnd.fLow, SE.Bnd.fHigh, SE.Bnd.fBandwidth, SE.Bnd.fSegments]; grind)"),
-                {"op": "features"})
+            geo = _StubGeometry(key, coords, b)
+            symx.sym_tie(ctx, name, lambda key=key, geo=geo: F._COMPUTE_FEATURES[key](geo), V,
+                         "Option (List (String × Rat))", mterm, _feature_leaf,
+                         tactic=f"unfold {name}\n  first | rfl | ({_FEAT_SIMP}; done) | ({_FEAT_SIMP}; grind)",
+                         meta={"op": "features"}, catch=(ValueError, NotImplementedError))
         # compute_geometric_features dispatches on `geometry.type` through the table
-        src, tree, n = symx.extract("ext_features_dispatch",
-                                    lambda: F.compute_geometric_features(_Geo((s, lo_, e, hi_), "BoundingBox")),
-                                    ["s", "l", "e", "h"], "Option (List (String × Rat))", _feature_leaf,
-                                    catch=(ValueError, KeyError, NotImplementedError))
-        ctx.symbolic_ties["ext_features_dispatch"] = {"paths": n}
-        ctx.obligation("ext_features_dispatch", symx.tie(
-            "ext_features_dispatch", src, ["s", "l", "e", "h"], "SE.Bnd.features (.boundingBox s l e h)",
-            tactic="unfold ext_features_dispatch\n  first | rfl | (simp [SE.Bnd.features]; done)"), {"op": "features"})
+        geo = _StubGeometry("BoundingBox", (s, lo_, e, hi_), b)
+        symx.sym_tie(ctx, "ext_features_dispatch", lambda: F.compute_geometric_features(geo),
+                     ["s", "l", "e", "h"], "Option (List (String × Rat))", "SE.Bnd.features (.boundingBox s l e h)",
+                     _feature_leaf, tactic="unfold ext_features_dispatch\n  first | rfl | (simp [SE.Bnd.features]; done)",
+                     meta={"op": "features"}, catch=(ValueError, NotImplementedError))
     finally:
         F.Feature, F.geometry_to_shapely = orig_feat, orig_conv
 
@@ -502,11 +544,7 @@ def _run_stream(ctx, geoms, label, lib=True):
         ctx.run_cases(OPS["lib_point"], _with_positions(geoms, LIB_POS))
 
 
-def run(ctx):
-    _table_obligations(ctx)
-    _symbolic_ties(ctx)
-    ctx.discharge(["SoundeventModel.Bounds", "SoundeventModel.Tactics", "Proofs.C05"])
-    ctx.run_corpus(OPS)
+def _special_stage(ctx):
     sp = special_geometries()
     _run_stream(ctx, sp, "special")
     ctx.run_cases(OPS["point"], _with_positions(sp[:6], UNKNOWN_POS))
@@ -515,8 +553,13 @@ def run(ctx):
     ctx.exhaustive["unknown position names"] = f"{len(UNKNOWN_POS)} near-miss names on six geometries"
     holes_ok = ctx.model_many("holes_inside", [{"g": g} for g in sp])
     ctx.tally("special:hole_outside_shell", sum(1 for r in holes_ok if r.get("val") is False))
-    rg = random_geometries(ctx.rng, ctx.budget(1350, 13500))
-    _run_stream(ctx, rg, "grid")
+
+
+def _grid_stage(ctx):
+    _run_stream(ctx, random_geometries(ctx.rng, ctx.budget(1350, 13500)), "grid")
+
+
+def _free_stage(ctx):
     fg = free_geometries(ctx.rng, ctx.budget(540, 6300))
     _tally_geoms(ctx, fg, "free")
     ctx.run_cases(OPS["bounds"], [{"g": g} for g in fg])
@@ -526,7 +569,17 @@ def run(ctx):
     ctx.run_cases(OPS["lib_point"], _with_positions(fg, LIB_POS))
 
 
+def run(ctx):
+    ctx.stage("tables", _table_obligations, ctx)
+    ctx.stage("symbolic-ties", _symbolic_ties, ctx)
+    ctx.stage("discharge", ctx.discharge, ["SoundeventModel.Bounds", "SoundeventModel.Tactics", "Proofs.C05"])
+    ctx.stage("corpus", ctx.run_corpus, OPS)
+    ctx.stage("special-cases", _special_stage, ctx)
+    ctx.stage("grid-correspondence", _grid_stage, ctx)
+    ctx.stage("free-correspondence", _free_stage, ctx)
+
+
 def search(ctx, failures):
     """a tie or table obligation broke: every operation on the special cases and a wide random stream"""
-    _run_stream(ctx, special_geometries(), "search-special")
-    _run_stream(ctx, random_geometries(ctx.rng, 900), "search-grid")
+    ctx.stage("search-special", _run_stream, ctx, special_geometries(), "search-special")
+    ctx.stage("search-grid", _run_stream, ctx, random_geometries(ctx.rng, 900), "search-grid")
